@@ -4,7 +4,7 @@
   Mirrors glom/core.py (`_glom`, `AUTO`, `FILL`, `_ArgValuator.mode`, `arg_val`,
   `_handle_dict`, `_handle_list`, `_handle_tuple`, `chain_child`, `_t_eval` for
   the S/A roots, the `glomit` methods of Pipe, Val, Spec, Coalesce, Call, Invoke,
-  Ref, Vars, Let, Auto, Fill), glom/matching.py (`Match.glomit`, `_glom_match`,
+  Ref, Vars, Let, Auto, Fill, Inspect), glom/matching.py (`Match.glomit`, `_glom_match`,
   match-mode `_handle_dict`, And, Or, Not, Switch) and the generic part of
   glom/grouping.py (`Group.glomit`, the callable branch of `GROUP`).
 
@@ -101,6 +101,8 @@ inductive Spec where
   | switch (cases : List (Spec × Spec)) (dflt : Option Spec)
   | probe (id : Nat)                              -- harness object recording scope[MODE]
   | iter (sub : Spec) (viaMap : Bool)             -- Iter(sub) / Iter().map(sub): a lazily evaluated stream
+  | inspect (s : Spec) (bp pm : Option (String × String))
+      -- Inspect(s, breakpoint=bp, post_mortem=pm), not recursive: the callbacks are catalogue callables
   deriving Repr, Inhabited
 
 inductive Ev where
@@ -198,6 +200,14 @@ def attrSet (attrs : List (String × V)) (k : String) (v : V) : List (String × 
 def callFn (p : Prims) (name kind : String) (args : List V) (kwargs : List (String × V)) : M V := do
   M.logEv (.call name args)
   M.lift (p.applyFn kind args kwargs)
+
+/-- an optional debugging callback (`Inspect(breakpoint=…, post_mortem=…)`): called without arguments -/
+def callOpt (p : Prims) (cb : Option (String × String)) : M Unit :=
+  match cb with
+  | some (n, k) => do
+    let _ ← callFn p n k [] []
+    pure ()
+  | Option.none => pure ()
 
 section loops
 variable {σ : Type} [ScopeAlg σ]
@@ -638,6 +648,18 @@ def glomit (p : Prims) (rec : Rec σ) (spec : Spec) (target : V) (sc : σ) : M (
     let vs ← (if viaMap then zipLoop rec sc items (List.replicate items.length sub) []
               else listLoop rec sub sc items [])
     pure (.stream vs, sc)
+  | .inspect s bp pm => do
+    -- `Inspect.glomit`: `scope[Inspect] = scope[glom]; scope[glom] = self._trace`, then
+    -- `scope[glom](target, self.wrapped, scope)` = `_trace`: it puts the real evaluator back (not
+    -- recursive), echoes (stdout: not observed), calls `breakpoint()`, evaluates the wrapped spec
+    -- with the real evaluator *in the Inspect's own scope*, and on an exception calls
+    -- `post_mortem()` and re-raises.  Debugging aside, Inspect is `Spec(s)`.
+    callOpt p bp
+    match ← M.attempt (rec s target sc) with
+    | .ok r => pure (r.1, sc)
+    | .error e => do
+      callOpt p pm
+      M.throw e
   | _ => M.fail "Unsupported"
 
 /-- `_ArgValuator.mode`: containers rebuilt, everything else literal -/
